@@ -1285,6 +1285,7 @@ def main(argv):
             "(Arc<MaybeUninit<T>>::as_mut_ptr, returns a raw pointer). Not decided: the verdict as a run-time value; schedules beyond the lemma."
             " Producers also include plain writes into (and drops of) a payload place. Premises added later: C02's release-order rules R-ORD-2/3/6 (whoever observed 1 from its own decrement performs an acquire before touching the value), the ArcUnion dispatch rules (R-TAG, Clone/Drop R-ARMS), `compare_exchange(1, 1, Acquire, _)` in its strong form as a gate. Also decided on configuration arm32."
             ' R-UNIQUE-VIEW: no safe function lends out the shared handle inside a UniqueArc; a clone of a handle reached through a UniqueArc is not a sole owner.'
+            ' Round thirteen/fourteen: R-GATE also over `addr_of_mut!` of the payload written through in a safe body; the gate may be `compare_exchange(1, 1, Acquire, Relaxed).is_ok()`; R-PANIC-DECLINE accepts writers and helpers whose returns all sit behind an Acquire gate edge; R-PROVENANCE; R-RACY-ASSERT inside R-UNW.'
         ),
         rule_text="instances = gate definitions, producers of exclusive access, call sites of unchecked constructors, decline paths",
         trusted_base=["rustc nightly MIR, dominance computed on it", "release/acquire lemma (C02)", "C04: the count word equals the number of owners"],
